@@ -21,6 +21,7 @@ var instrumentFiles = []string{
 	"diode/internal/diodes/many_to_one.go",
 	"diode/internal/diodes/poller.go",
 	"diode/internal/diodes/waiter.go",
+	"writer.go", // TriggerLevelWriter / SyncWriter (only instrumented if they use sync/atomic)
 }
 
 func yieldStmt(kind string) ast.Stmt {
